@@ -70,6 +70,13 @@ def _check_kwargs(name: str, kw: Dict[str, Any], allowed: Iterable[str]) -> None
         _unsupported(f"{name}({', '.join(sorted(extra))}=...)")
 
 
+class CategoricalDtype(str):
+    """The dtype of a category column: equal to the string 'category', and an instance of `pd.CategoricalDtype`."""
+
+    def __new__(cls, *a, **k):
+        return str.__new__(cls, "category")
+
+
 class Arr(list):
     """What `.unique()` / `.values` return: a sequence with `tolist()`."""
 
@@ -279,6 +286,8 @@ class Series:
             raise ValueError("Length of values does not match length of index")
         self.name = name
         self.dtype = dtype or _infer_dtype(self._v)
+        if self.dtype == "category":
+            self.dtype = CategoricalDtype()
         self.categories = list(categories) if categories is not None else (sorted(_unique([v for v in self._v if not isna(v)]), key=_sort_key) if self.dtype == "category" else None)
         self._parent = _parent
         if dtype in ("category", "Int64", "int64", "float64", "str", "object") and dtype != _infer_dtype(self._v):
@@ -1729,7 +1738,7 @@ def pd_namespace() -> _NS:
         notnull=lambda v: v.notna() if isinstance(v, (Series, Frame)) else not isna(v),
         NA=NAN,
         api=_NS(types=types),
-        CategoricalDtype=lambda *a, **k: "category",
+        CategoricalDtype=CategoricalDtype,
     )
 
 
